@@ -155,6 +155,15 @@ def check_debug(case):
     expected = {(m, i): getattr(ref, m)(b) for m in methods for i, b in enumerate(batches)}
     _hp.alter_pipeline_for_debugging(pipe)
     unrecorded = 0
+    if case.get("fail_first") and methods:
+        # a call that fails inside a step (a batch with a column missing, refused by the first model that counts its columns) comes
+        # first: the hooks record the calls that follow as if nothing had happened
+        bad = batches[0].iloc[:, :-1] if hasattr(batches[0], "iloc") else batches[0][:, :-1]
+        for m_ in methods:
+            try:
+                getattr(pipe, m_)(bad)
+            except Exception:  # noqa: BLE001
+                pass
     for i, b in enumerate(batches):
         for m in methods:
             out = getattr(pipe, m)(b)
@@ -186,10 +195,13 @@ def check_debug(case):
                 d = getattr(model, "_debug", None)
                 require(d is not None, "debug:model-without-record-holder", type(model).__name__, facts)
                 for k in d.inputs:
-                    require(k in d.outputs, "debug:input-without-output", "%s.%s" % (type(model).__name__, k), facts)
+                    # (a call that raised leaves an input without output behind: a truthful record of a failed call)
+                    require(k in d.outputs or case.get("fail_first"), "debug:input-without-output", "%s.%s" % (type(model).__name__, k), facts)
                 if isinstance(model, (Pipeline, FeatureUnion)):
                     continue
                 for k in list(d.inputs):
+                    if k not in d.outputs:
+                        continue
                     redo = d.methods[k](model, d.inputs[k])
                     require(_eq(redo, d.outputs[k]), "debug:record-not-truthful", "%s.%s: recorded output is not what the model returns on the recorded input" % (
                         type(model).__name__, k), facts)
@@ -451,8 +463,8 @@ def _has_remainder(spec):
 
 def _strategy(tier):
     # one case in four builds its containers from user subclasses of Pipeline / FeatureUnion / ColumnTransformer
-    return st.builds(lambda c, f, ck: dict(c, subclass=f, cols_kind=ck), pipegen.program(max_depth=3 if tier == "quick" else 4), st.sampled_from([False, False, False, True]),
-                     st.sampled_from(["list", "list", "tuple", "array"]))
+    return st.builds(lambda c, f, ck, ff: dict(c, subclass=f, cols_kind=ck, fail_first=ff), pipegen.program(max_depth=3 if tier == "quick" else 4), st.sampled_from([False, False, False, True]),
+                     st.sampled_from(["list", "list", "tuple", "array"]), st.sampled_from([False, False, True]))
 
 
 CLAUSES = [
